@@ -11,10 +11,10 @@ pub fn prop() -> Prop {
     Prop {
         id: "C20",
         level: "model_checking",
-        rule: "the real jawk binary built from the working tree, spawned with pipes: 18 inputs (clean, noisy, junk words and broken literals between values, truncated tail, empty; 3000 rows, one 70 KB row, 1500 diagnostics, a long clean stream with a truncated tail - output beyond every stdout buffer) x 4 --on-error policies x 24 configurations (11 valid pipelines, two with --skip/--take at the edge of the 64-bit range, incl. options unrelated to error handling such as --only-objects-and-arrays, --unique, cache size, styles, split+group; 11 classes of invalid configuration, missing input file, file argument) x stdout in {pipe, pipe whose reader is gone (EPIPE), /dev/full} x row separator with/without newline; all combinations; non-trivial = the run produces output or must fail; distinct by construction; inputs that cannot be read: /proc/self/mem as a file argument after a readable file, a directory as the standard input",
+        rule: "the real jawk binary built from the working tree, spawned with pipes: 18 inputs (clean, noisy, junk words and broken literals between values, truncated tail, empty; 3000 rows, one 70 KB row, 1500 diagnostics, a long clean stream with a truncated tail - output beyond every stdout buffer) x 4 --on-error policies x 24 configurations (11 valid pipelines, two with --skip/--take at the edge of the 64-bit range, incl. options unrelated to error handling such as --only-objects-and-arrays, --unique, cache size, styles, split+group; 11 classes of invalid configuration, missing input file, file argument) x stdout in {pipe, pipe whose reader is gone (EPIPE), /dev/full} x row separator with/without newline; all combinations; non-trivial = the run produces output or must fail; distinct by construction; inputs that cannot be read: /proc/self/mem as a file argument after a readable file, a directory as the standard input; the version and help requests (long and short, alone and next to other options) and four usage errors",
         explanation: "every combination is executed as a child process and compared with the in-process run of the same arguments: stdout = exactly the in-process stdout sink, under --on-error=stderr the diagnostics = exactly the in-process stderr sink and none on stdout, exit status 0 iff the in-process Result is Ok and stdout accepted every byte, otherwise non-zero with a non-empty stderr",
         assumptions: a,
-        guards: vec!["unreadable-input", "output-beyond-every-buffer", "exit-nonzero-on-config-error", "exit-nonzero-on-full-stdout", "epipe", "stderr-policy-diagnostics", "unterminated-buffer-flush", "panic-policy-fails", "missing-file"],
+        guards: vec!["version-and-help", "unreadable-input", "output-beyond-every-buffer", "exit-nonzero-on-config-error", "exit-nonzero-on-full-stdout", "epipe", "stderr-policy-diagnostics", "unterminated-buffer-flush", "panic-policy-fails", "missing-file"],
         budget_s: (100, 900),
         single_worker: false,
         run,
@@ -159,6 +159,49 @@ fn run(ctx: &mut Ctx) {
         if ctx.time_up() {
             ctx.cap("inputs");
             return;
+        }
+    }
+    // runs that succeed without reading anything: the version and the help text (on standard output, status 0), alone
+    // and next to other options; and a usage error (non-zero, message on standard error, nothing on standard output)
+    if ctx.mine() {
+        let info: [&[&str]; 8] = [&["--version"], &["-V"], &["--help"], &["-h"], &["--on-error=panic", "--version"], &["--select=.a=A", "--help"], &["-V", "--take=1"], &["--unique", "-h"]];
+        for a in info {
+            let args: Vec<String> = a.iter().map(|s| s.to_string()).collect();
+            for mode in [OutMode::Pipe] {
+                match drive::run_child(&bin, &args, b"1 x 2", mode) {
+                    Ok(c) => {
+                        ctx.rep.evaluations += 1;
+                        ctx.case_done();
+                        ctx.trace_validated();
+                        ctx.nontrivial();
+                        ctx.guard("version-and-help");
+                        let rcase = Case { args: args.clone(), input: Input::Stdin(b"1 x 2".to_vec()), rplan: Default::default(), wplan: Default::default() };
+                        let brief = format!("exit={:?} stdout={:?} stderr={:?}", c.code, drive::trunc(&String::from_utf8_lossy(&c.stdout), 120), drive::trunc(&String::from_utf8_lossy(&c.stderr), 120));
+                        let sig = format!("information request {a:?}");
+                        if c.code != Some(0) {
+                            ctx.violation("nonzero-exit-on-success", &sig, &[rcase], "exit status 0".into(), brief);
+                        } else if c.stdout.is_empty() || !c.stderr.is_empty() {
+                            ctx.violation("stderr-noise-on-success", &sig, &[rcase], "the text on standard output, nothing on standard error".into(), brief);
+                        } else {
+                            ctx.outcome("ok");
+                        }
+                    }
+                    Err(e) => ctx.machinery_error(format!("cannot run child: {e}")),
+                }
+            }
+        }
+        let usage: [&[&str]; 4] = [&["--no-such-option"], &["--take=minus"], &["--skip=-1"], &["--style=fancy"]];
+        for a in usage {
+            let args: Vec<String> = a.iter().map(|s| s.to_string()).collect();
+            if let Ok(c) = drive::run_child(&bin, &args, b"1 2", OutMode::Pipe) {
+                ctx.rep.evaluations += 1;
+                ctx.case_done();
+                let rcase = Case { args: args.clone(), input: Input::Stdin(b"1 2".to_vec()), rplan: Default::default(), wplan: Default::default() };
+                let brief = format!("exit={:?} stdout={:?} stderr={:?}", c.code, drive::trunc(&String::from_utf8_lossy(&c.stdout), 120), drive::trunc(&String::from_utf8_lossy(&c.stderr), 120));
+                if c.code == Some(0) || c.code == Some(101) || c.stderr.is_empty() || !c.stdout.is_empty() {
+                    ctx.violation("zero-exit-on-invalid-configuration", &format!("usage error {a:?}"), &[rcase], "a non-zero exit status, a message on standard error, nothing on standard output".into(), brief);
+                }
+            }
         }
     }
     ctx.level_done("all-combinations");
